@@ -4,7 +4,6 @@ import (
 	"github.com/nspcc-dev/neo-go/pkg/io"
 	"github.com/nspcc-dev/neo-go/pkg/smartcontract/scparser"
 	"github.com/nspcc-dev/neo-go/pkg/vm"
-	"github.com/nspcc-dev/neo-go/pkg/vm/emit"
 	"github.com/nspcc-dev/neo-go/pkg/vm/opcode"
 )
 
@@ -24,7 +23,16 @@ func Calculate(base int64, script []byte) (int64, int) {
 		n := len(pubs)
 		sizeInv := 66 * m
 		size += io.GetVarSize(sizeInv) + sizeInv + io.GetVarSize(script)
-		netFee += calculateMultisig(base, m) + calculateMultisig(base, n)
+		// The parser accepts any integer push for m and n (PUSH1..PUSH16,
+		// PUSHINT8..PUSHINT256), not only the one emit.Int would choose, and
+		// their prices differ: charge the instructions the script really has.
+		mOp := opcode.Opcode(script[0])
+		nOff := pushIntSize(mOp)
+		for _, pub := range pubs {
+			nOff += 2 + len(pub) // PUSHDATA1, length byte, key.
+		}
+		nOp := opcode.Opcode(script[nOff])
+		netFee += Opcode(base, opcode.PUSHDATA1)*int64(m+n) + Opcode(base, mOp, nOp)
 		netFee += base * ECDSAVerifyPrice * int64(n)
 	} /*else {
 		// We can support more contract types in the future.
@@ -32,11 +40,10 @@ func Calculate(base int64, script []byte) (int64, int) {
 	return vm.PicoGasToDatoshiInt64(netFee), size
 }
 
-func calculateMultisig(base int64, n int) int64 {
-	result := Opcode(base, opcode.PUSHDATA1) * int64(n)
-	bw := io.NewBufBinWriter()
-	emit.Int(bw.BinWriter, int64(n))
-	// it's a hack because coefficients of small PUSH* opcodes are equal
-	result += Opcode(base, opcode.Opcode(bw.Bytes()[0]))
-	return result
+// pushIntSize returns the size of an integer push instruction (opcode and operand).
+func pushIntSize(op opcode.Opcode) int {
+	if op <= opcode.PUSHINT256 {
+		return 1 + 1<<op
+	}
+	return 1 // PUSHM1, PUSH0..PUSH16.
 }
